@@ -803,6 +803,10 @@ class NetCDF4(FileHandler):
         """
         group_vars = defaultdict(list)
 
+        # The root group holds the global attributes, it is written even if
+        # it has no variables:
+        group_vars[None] = []
+
         # Get the variables for the different groups:
         for full_name in data.variables:
             group, _ = NetCDF4._split_path(full_name)
